@@ -4,7 +4,9 @@ set -e
 cd "$(dirname "$0")"
 export GOFLAGS=-mod=mod GOPROXY=off GOSUMDB=off GOTOOLCHAIN=local
 mkdir -p run/bin .locks replays evidence
-(cd lean && lake build 2>&1 | tail -3)
 cp /repo/go.sum harness/go.sum
 (cd harness && go build -tags verif -o ../run/bin/harness .)
+mkdir -p lean/CoreDhcp/Generated
+run/bin/harness gen -out lean/CoreDhcp/Generated/IPCalc.lean
+(cd lean && lake build 2>&1 | tail -3)
 echo "setup ok"
